@@ -43,6 +43,7 @@ ReverseReqs ==
   \cup {RReverse("reject_ask", "exec1", NoFunds, "a1", s) : s \in {NoSize, 1}}
   \cup {RReverse("reject_bid", "exec1", NoFunds, "b1", s) : s \in {NoSize, 1}}
 MatchReqs == {RMatch("exec1", NoFunds, "a1", "b1", p, s) : p \in {P(1), P(2)}, s \in 1..3}
+             \cup {RMatch("exec1", NoFunds, "a1", "b1", Dec(k * SCALE, "t0"), 2) : k \in {1, 2}}   \* "1.0", "2.0"
 
 DoInstantiate == ~st.cfg.set /\ \E m \in Cfgs : Step(RInstantiate(m))
 DoCreateAsk   == st.cfg.set /\ \E r \in AskReqs : Step(r)
